@@ -390,9 +390,9 @@ def fx_obligations():
             ok = ok and len(ys) == 1 and ys[0][1] == ("tuple", (("item", ("var", "X"), subset), blk)) and len(ys[0][2]) == 1
             # indices recorded before the yield, as subset.tolist()
             ok = ok and len(stt) == 1 and stt[0][1] == ("var", "disguise_batch") and stt[0][3][:1] == ("callres",) \
-                and stt[0][3][2] == "subset.tolist" and s.events.index(stt[0]) < s.events.index(ys[0])
-            tl = [e for e in calls if e[2] == "subset.tolist"]
-            ok = ok and len(tl) == 1 and tl[0][6] == ("attr", subset, "tolist")
+                and stt[0][3][2].endswith(".tolist") and s.events.index(stt[0]) < s.events.index(ys[0])
+            tl = [e for e in calls if isinstance(e[6], tuple) and e[6] == ("attr", subset, "tolist")]
+            ok = ok and len(tl) == 1 and stt[0][3][1] == tl[0][1]
             det = {"yield": fx.show(ys[0][1]) if ys else None}
     obs.append(Ob("mlcl.disguise_batch: inner generator runs on arange(len(X)) with the same affinity and rng; each step records "
                   "indices = subset.tolist() and yields (X[subset], affinity block)", PROVED if ok else REFUTED, "fx-dataflow", "P", det, fn=fnq))
